@@ -27,8 +27,15 @@ use swc_trace_macro::swc_trace;
 use thiserror::Error;
 use tracing::debug;
 
-static OPERATION_REGEX: Lazy<Regex> =
-    Lazy::new(|| Regex::new(r"\s*(entrypoint|field|pointer)\s*([^\.\s]+)\.([^\s\(]+)").unwrap());
+// White space and names as the lexer of isograph_lang_parser defines them (token_kind.rs):
+// white space (including U+FEFF, which `\s` lacks) may surround the dot, and a name ends where
+// the lexer ends it, e.g. before a directive glued to it (`Query.foo@lazyLoad`).
+static OPERATION_REGEX: Lazy<Regex> = Lazy::new(|| {
+    Regex::new(
+        r"[\s\x{feff}]*(entrypoint|field|pointer)[\s\x{feff}]*([a-zA-Z_][a-zA-Z0-9_]*)[\s\x{feff}]*\.[\s\x{feff}]*([a-zA-Z_][a-zA-Z0-9_]*)",
+    )
+    .unwrap()
+});
 
 #[derive(Deserialize)]
 #[serde(deny_unknown_fields)]
